@@ -1,14 +1,17 @@
 (* C15 — time and memory limits yield explicit errors, never wrong answers.
    The clock is an arbitrary oracle on the index of the limit check (every interruption point),
-   the check interval and the memory limit are arbitrary.  Statements only. *)
+   the check interval and the memory limit are arbitrary; `giveup` is an arbitrary oracle that
+   turns any propagation (root or child) into "given up at the deadline" (search::propagate_until).
+   The `_g` statements quantify over it; the statements without `_g` are their instances for the
+   entry points the differential runs (no propagation given up).  Statements only. *)
 Require Import Selen.Model.Prelude Selen.Model.Dom Selen.Model.Views Selen.Model.PropDefs.
 Require Import Selen.Model.Props.Basic Selen.Model.Propagate Selen.Model.Search Selen.Model.EngineSpec Selen.Model.Limits.
 Require Import Selen.Proofs.Props.BasicProofs Selen.Proofs.EngineProofs Selen.Proofs.LimitsProofs.
 
 (* whatever fires, wherever: what was yielded so far is a prefix of the unlimited iteration, and
    an exhausted limited run IS the unlimited run *)
-Theorem limits_prefix : forall pick m interval clock mlimit resume fuel depth ps s best l sols b l' why d all ball,
-  dfs_lim pick m interval clock mlimit resume fuel depth ps s best l = LStop sols b l' why d ->
+Theorem limits_prefix : forall pick m interval clock mlimit giveup resume fuel depth ps s best l sols b l' why d all ball,
+  dfs_lim pick m interval clock mlimit giveup resume fuel depth ps s best l = LStop sols b l' why d ->
   dfs pick m fuel ps s best = SOk all ball ->
   (exists rest, all = sols ++ rest) /\ (why = SExhausted -> sols = all /\ b = ball).
 Proof. exact LimitsProofs.limits_prefix. Qed.
@@ -51,6 +54,51 @@ Theorem minimize_lim_correct : forall pick interval clock mlimit buildmem late o
 Proof. exact (LimitsProofs.minimize_lim_correct BasicProofs.mk_leq_good BasicProofs.mk_gt_good BasicProofs.mk_lt_good). Qed.
 Print Assumptions minimize_lim_correct.
 
+(* ... and the same with any propagation given up at the deadline: a given-up propagation is treated
+   as a failed space by the engine, yet it never becomes a no-solution verdict, a non-optimal Ok, or
+   a spurious solution — the run ends in Timeout *)
+Theorem enumerate_lim_genuine_g : forall pick interval clock mlimit giveup buildmem ps s sols ck,
+  Forall good ps -> scoped ps (length s) -> wf_store s ->
+  enumerate_lim_g pick interval clock mlimit giveup buildmem ps s = Some (sols, ck) ->
+  NoDup sols /\ forall t, In t sols -> all_fixed t = true /\ sub_store t s /\ sol ps s (asg_of t).
+Proof. exact (LimitsProofs.enumerate_lim_genuine_g BasicProofs.mk_leq_good BasicProofs.mk_gt_good BasicProofs.mk_lt_good). Qed.
+Print Assumptions enumerate_lim_genuine_g.
+
+Theorem solve_lim_correct_g : forall pick interval clock mlimit giveup buildmem late ps s o ck,
+  Forall good ps -> scoped ps (length s) -> wf_store s -> 0 < interval ->
+  solve_lim_g pick interval clock mlimit giveup buildmem late ps s = (o, ck) ->
+  match o with
+  | OOk t => all_fixed t = true /\ sub_store t s /\ sol ps s (asg_of t)
+  | ONoSolution => forall a, ~ sol ps s a
+  | OTimeout | OMemory => True
+  | OFuelOut => False
+  end.
+Proof. exact (LimitsProofs.solve_lim_correct_g BasicProofs.mk_leq_good BasicProofs.mk_gt_good BasicProofs.mk_lt_good). Qed.
+Print Assumptions solve_lim_correct_g.
+
+Theorem minimize_lim_correct_g : forall pick interval clock mlimit giveup buildmem late obj ps s o ck,
+  Forall good ps -> scoped ps (length s) -> wf_store s -> view_ok obj -> 0 < interval ->
+  (forall x, uvar obj = Some x -> (x < length s)%nat) ->
+  minimize_lim_g pick interval clock mlimit giveup buildmem late obj ps s = (o, ck) ->
+  match o with
+  | OOk t => sol ps s (asg_of t) /\ forall a, sol ps s a -> vsem obj (asg_of t) <= vsem obj a
+  | ONoSolution => forall a, ~ sol ps s a
+  | OTimeout | OMemory => True
+  | OFuelOut => False
+  end.
+Proof. exact (LimitsProofs.minimize_lim_correct_g BasicProofs.mk_leq_good BasicProofs.mk_gt_good BasicProofs.mk_lt_good). Qed.
+Print Assumptions minimize_lim_correct_g.
+
+(* the root propagation given up at the deadline (Search::TimedOut): Timeout from solve and
+   minimize/maximize, nothing from enumerate, before any limit check *)
+Theorem root_giveup_is_timeout : forall pick interval clock mlimit giveup late obj ps s,
+  giveup ps s = true ->
+  solve_lim_g pick interval clock mlimit giveup false late ps s = (OTimeout, 0) /\
+  minimize_lim_g pick interval clock mlimit giveup false late obj ps s = (OTimeout, 0) /\
+  enumerate_lim_g pick interval clock mlimit giveup false ps s = Some ([], 0).
+Proof. exact LimitsProofs.root_giveup_is_timeout. Qed.
+Print Assumptions root_giveup_is_timeout.
+
 (* a model that exceeded its memory limit while being built reports MemoryLimit from every entry *)
 Theorem buildmem_all_entries : forall pick interval clock mlimit late obj ps s,
   fst (solve_lim pick interval clock mlimit true late ps s) = OMemory /\
@@ -58,6 +106,13 @@ Theorem buildmem_all_entries : forall pick interval clock mlimit late obj ps s,
   enumerate_lim pick interval clock mlimit true ps s = Some ([], 0).
 Proof. exact LimitsProofs.buildmem_all_entries. Qed.
 Print Assumptions buildmem_all_entries.
+
+Theorem buildmem_all_entries_g : forall pick interval clock mlimit giveup late obj ps s,
+  fst (solve_lim_g pick interval clock mlimit giveup true late ps s) = OMemory /\
+  fst (minimize_lim_g pick interval clock mlimit giveup true late obj ps s) = OMemory /\
+  enumerate_lim_g pick interval clock mlimit giveup true ps s = Some ([], 0).
+Proof. exact LimitsProofs.buildmem_all_entries_g. Qed.
+Print Assumptions buildmem_all_entries_g.
 
 (* with no limit configured and a clock that never expires the limit machinery is inert *)
 Theorem no_limit_agrees : forall pick interval ps s,
@@ -69,7 +124,28 @@ Theorem no_limit_agrees : forall pick interval ps s,
 Proof. exact (LimitsProofs.no_limit_agrees BasicProofs.mk_leq_good BasicProofs.mk_gt_good BasicProofs.mk_lt_good). Qed.
 Print Assumptions no_limit_agrees.
 
+(* x < y over 0..2: the first check is passed at the first next(), the second when the engine
+   descends into x <= 0 (a stalled child: y in 1..2) — since the repair limits_deep a limit is seen
+   there — and the solution x = 0, y = 1 is found below without a third check *)
 Example c15_nonvacuous :
-  fst (solve_lim fifo 1 (from_check 1) None false false [mk_lt (VVar 0) (VVar 1)] [[0;1;2];[0;1;2]]) = OTimeout /\
-  fst (solve_lim fifo 1 (from_check 2) None false false [mk_lt (VVar 0) (VVar 1)] [[0;1;2];[0;1;2]]) = OOk [[0];[1]].
+  solve_lim fifo 1 (from_check 1) None false false [mk_lt (VVar 0) (VVar 1)] [[0;1;2];[0;1;2]] = (OTimeout, 1) /\
+  solve_lim fifo 1 (from_check 2) None false false [mk_lt (VVar 0) (VVar 1)] [[0;1;2];[0;1;2]] = (OTimeout, 2) /\
+  solve_lim fifo 1 (from_check 3) None false false [mk_lt (VVar 0) (VVar 1)] [[0;1;2];[0;1;2]] = (OOk [[0];[1]], 2).
+Proof. repeat split; vm_compute; reflexivity. Qed.
+
+(* the propagation of the child x <= 0 is given up at the deadline: Timeout after the one check of
+   the first next(); without the oracle the same model is solved *)
+Example c15_giveup_nonvacuous :
+  solve_lim_g fifo 1 never None (fun ps _ => (length ps =? 2)%nat) false false
+              [mk_lt (VVar 0) (VVar 1)] [[0;1;2];[0;1;2]] = (OTimeout, 1) /\
+  solve_lim_g fifo 1 never None nogiveup false false
+              [mk_lt (VVar 0) (VVar 1)] [[0;1;2];[0;1;2]] = (OOk [[0];[1]], 2).
 Proof. split; vm_compute; reflexivity. Qed.
+
+(* the memory limit is seen while descending: 600 free 0/1 variables, no constraint, 1 MB.  The
+   estimate crosses 1 MB with 512 frames on the stack; with a check at every step the search stops
+   on the descent that pushes the 512th frame (513 checks: one at the first next(), one per push),
+   long before the first solution at depth 600 *)
+Example c15_memory_seen_on_descent :
+  solve_lim fifo 1 never (Some 1) false false [] (repeat [0;1] 600) = (OMemory, 513).
+Proof. vm_compute. reflexivity. Qed.
